@@ -1572,6 +1572,11 @@ func (fr *Frame) bitop(x *ssa.BinOp, a, b Term) {
 		}
 	}
 	nonneg := app(">=", a.S, "0")
+	if ok && kv < 0 && x.Op == token.AND && ^kv < (1<<40) {
+		// a & ^m = a - (a & m)
+		fr.setVal(x, app("-", a.S, maskBits(a.S, ^kv)))
+		return
+	}
 	if ok && kv >= 0 {
 		switch x.Op {
 		case token.SHL:
